@@ -55,6 +55,11 @@ def gen_ops(rng, tier):
         kind = rng.randrange(7); tkind = rng.randrange(7)
         ntbl = rng.randint(1, min(4, nc)) if nc > 1 else 1
         ops.append("rt %d %d %d %d %d %d %d %d %d" % (prec, nc, w, h, rng.randrange(1 << 30), kind, rng.randrange(1 << 30), tkind, ntbl))
+    # histories: several images through one compression object and one decompression object, tables redefined between images,
+    # later images abbreviated (optionally after a tables-only datastream) - the bound must hold for the tables the decoder holds
+    for i in range(400 if big else 70):
+        ops.append("rtseq %d %d %d %d %d %d %d" % (rng.choice((1, 3)), rng.choice([8, 16, 17, rng.randint(1, 30)]), rng.choice([8, 9, rng.randint(1, 20)]),
+                                                  rng.randrange(1 << 30), rng.randrange(7), rng.randint(2, 4), rng.randrange(1 << 30)))
     for q in range(1, 101, 1 if big else 9):
         ops.append("rt 8 3 %d %d %d %d %d 1 2" % (rng.randint(9, 24), rng.randint(9, 24), rng.randrange(1 << 20), rng.choice((0, 5, 2)), q - 1))
     for i in range(200 if big else 40):
